@@ -293,6 +293,7 @@ class SchedReader(object):
                 return
             s.count("probes")
             self._obs("probe", a, dump=got, gen=r.generation())
+            self.search_view_check(got)
         elif kind == "utd":
             if self.searcher is None:
                 return
@@ -334,8 +335,108 @@ class SchedReader(object):
                 self.searcher = None
         elif kind == "sleep":
             k.sleep(op[1])
+        elif kind == "await":
+            # a client that waits for the next commit to return (or for the writers to finish)
+            seen = len(s.ret)
+            writers = [x for x in s.actors if isinstance(x, SchedWriter)]
+            k.block_until(lambda: len(s.ret) > seen or all(w.task.state == "done" for w in writers),
+                          timeout=30.0, desc="await commit")
+            s.count("reader_awaits")
         else:
             raise HarnessError("unknown reader op %r" % (op,))
+
+
+def _search_view(searcher, word):
+    """What a user of the *searcher* (not only its reader) sees: an ordering by a
+    field without a column (sorting through the searcher-level field cache) and a
+    scored search (searcher-level statistics)."""
+    from whoosh import query
+    srt = [(h["k"], h["u"]) for h in searcher.search(query.Every(), sortedby="k", limit=None)]
+    sc = [(h["u"], repr(h.score)) for h in searcher.search(query.Term("t", word), limit=None)]
+    return srt, sc
+
+
+def _search_view_check(self, got):
+    """A held or refreshed searcher answers searches from the same snapshot as
+    its reader, and exactly like a searcher freshly opened on that generation."""
+    s = self.s
+    srch = self.searcher
+    r = srch.reader()
+    word = s.cfg.vocab[0]
+    where = "%s: searcher of generation %s" % (self.name, r.generation())
+
+    def run(sr, what):
+        try:
+            return _search_view(sr, word)
+        except (SimAbort, SimKilled, HarnessError):
+            raise
+        except Exception as e:  # noqa
+            loose = (not s.cfg.compound) and s.model.generation > (r.generation() or 0)
+            v = Violation("held_reader_probe_equals_snapshot", "%s: a search through %s raised %s: %s" % (where, what, type(e).__name__, e),
+                          sig=("held_reader:loose_segment_files_vanish" if loose else "searcher_search_raised:" + exc_sig(e)))
+            if loose:
+                s.soft(v)
+                return None
+            raise v
+    mine = run(srch, "the held searcher")
+    if mine is None:
+        return
+    srt, sc = mine
+    s.count("search_view_checks")
+    uids = sorted(u for _, u in srt)
+    live = sorted(got["docs"])
+    if uids != live:
+        raise Violation("held_reader_probe_equals_snapshot", "%s: Every() sorted by k returned uids %s, its own reader lists %s" % (where, uids[:12], live[:12]),
+                        sig="searcher_view:sorted_set")
+    ks = [kv for kv, _ in srt]
+    if ks != sorted(ks):
+        raise Violation("held_reader_probe_equals_snapshot", "%s: Every() sorted by k is out of order: %s" % (where, ks[:16]),
+                        sig="searcher_view:sorted_order")
+    live_set = set(live)
+    for u, _ in sc:
+        if u not in live_set:
+            raise Violation("held_reader_probe_equals_snapshot", "%s: scored search returned uid %s, not a live document of its reader" % (where, u),
+                            sig="searcher_view:scored_set")
+    # differential: a fresh open that lands on the same generation must agree exactly
+    try:
+        fresh = self.ix.searcher()
+    except (SimAbort, SimKilled, HarnessError):
+        raise
+    except Exception:  # noqa  (open failures are judged by the "open" op)
+        return
+    try:
+        if fresh.reader().generation() != r.generation():
+            return
+        theirs = run(fresh, "a fresh searcher")
+    finally:
+        fresh.close()
+    if theirs is None:
+        return
+    s.count("search_view_vs_fresh")
+    if theirs[0] != srt:
+        raise Violation("refresh_equals_fresh_open", "%s: Every() sorted by k gives %s, a fresh searcher of the same generation gives %s" % (where, srt[:10], theirs[0][:10]),
+                        sig="refresh_equals_fresh_open:sorted_search")
+    if theirs[1] != sc:
+        raise Violation("refresh_equals_fresh_open", "%s: Term(t,%s) scores %s, a fresh searcher of the same generation scores %s" % (where, word, sc[:6], theirs[1][:6]),
+                        sig="refresh_equals_fresh_open:scored_search")
+
+
+def _search_view_check_outer(self, got):
+    s = self.s
+    gen = self.searcher.reader().generation() or 0
+    try:
+        _search_view_check(self, got)
+    except Violation as v:
+        # same criterion as for reader probes: loose segment files and a later commit already
+        # renamed its TOC -> lazily opened per-document files may be gone (K-C03-loose-segments)
+        if (not s.cfg.compound) and s.model.generation > gen:
+            v.sig = "held_reader:loose_segment_files_vanish"
+            s.soft(v)
+            return
+        raise
+
+
+SchedReader.search_view_check = _search_view_check_outer
 
 
 def dump_equals_model(got, docs, schema, field_names, parts):
